@@ -553,7 +553,11 @@ func runTokenStream(c *ctx) error {
 				if !c.thoro && alg != "ed25519" && alg != "p256" {
 					continue
 				}
-				c.emit(fmt.Sprintf("go.tok.roundtrip %s %s %d", kind, alg, m), "token.roundtrip:"+alg, true, "roundtrip:"+kind+":"+alg)
+				cl := "token.roundtrip:" + alg
+				if m&512 != 0 {
+					cl = "token.roundtrip-intfloat:" + alg // a class of its own: an open finding lives here and must not crowd out other cases
+				}
+				c.emit(fmt.Sprintf("go.tok.roundtrip %s %s %d", kind, alg, m), cl, true, "roundtrip:"+kind+":"+alg)
 			}
 			for m := 0; m < masks; m++ {
 				if !c.thoro && alg == "rsa" {
